@@ -370,6 +370,19 @@ def gen_C11(rng, tier):
             d = rng.choice([{'a': sub, 'b': copy.deepcopy(sub), 'k': d}, [sub, copy.deepcopy(sub), d]])
         p = derive_path(rng, d, CHILD + ('rec', 'pred'), maxextra=1, pred_depth=1)
         cmds = [('iter', 'doc', p, False, False), ('drain', 0, 8, 0)]
+        if rng.random() < 0.25:
+            # different chains that spell the same path string: a key containing '.' or '[0]' versus real nesting
+            v = rng.choice([1, 0, 'x', None, [1], {'k': 1}])
+            d = rng.choice([{'a.b': v, 'a': {'b': copy.deepcopy(v)}}, {'a': [copy.deepcopy(v)], 'a[0]': v},
+                            {'a': {'b.k': v, 'b': {'k': copy.deepcopy(v)}}}])
+            ps = {0: [[('key', 'a.b', 'item')], [('key', 'a', 'item'), ('key', 'b', 'item')]],
+                  1: [[('key', 'a[0]', 'item')], [('key', 'a', 'item'), ('idx', 0)]],
+                  2: [[('key', 'a', 'item'), ('key', 'b.k', 'item')], [('key', 'a', 'item'), ('key', 'b', 'item'), ('key', 'k', 'item')]]}
+            which = 0 if 'a.b' in d else (1 if 'a[0]' in d else 2)
+            cmds = [('get_match', 'doc', ps[which][0], False, False), ('get_match', 'doc', ps[which][1], False, False),
+                    ('eq', 0, 1), ('eq', 1, 0), ('describe', 0), ('describe', 1)]
+            out.append(Q({'doc': d, 'cmds': cmds}))
+            continue
         if rng.random() < 0.4:
             q = derive_path(rng, d, CHILD + ('rec', 'pred'), maxextra=1, pred_depth=1)
             cmds += [('iter', 'doc', q, False, False), ('drain', 1, 6, 0)]
@@ -430,6 +443,10 @@ def gen_C12(rng, tier):
         for i in range(K):
             cmds += [('iter', ('match', i), q, False, False, False), ('drain', i + 2, 40, 0)]
         cmds += [('drain', 1, 40 * K, 0)]
+        # the other three functions from the same matches
+        for i in range(3):
+            cmds += [('iter', ('match', i), q, True, False, False), ('drain', K + 2 + i, 40, 0),
+                     ('get_match', ('match', i), q, False, False), ('get', ('match', i), q, ('const', 'dflt'), False)]
         out.append(Q({'doc': d, 'cmds': cmds, 'pq': True}))
     return out
 
@@ -450,7 +467,7 @@ def oracle_C12(case, o):
             elif oc[2][0] != ('S', 'StopIteration'):
                 return []                                              # an exception: compared by the correspondence only
     whole = []
-    for x in drains[-1][2]:
+    for x in drains[1 + min(np_, 6)][2] if len(drains) > 1 + min(np_, 6) else []:
         oc = x[2][0]
         if oc[1] == 'result':
             whole.append(oc)
@@ -593,8 +610,14 @@ def gen_C20(rng, tier):
     for _ in range(sized(tier, 1500, 20000)):
         d = rand_doc(rng, big=rng.random() < 0.3)
         p = derive_path(rng, d, CHILD + ('rec', 'parent'), maxextra=2, pred_depth=1)
-        if rng.random() < 0.3:
+        r = rng.random()
+        if r < 0.2:
             p = qcase.fix_path(p + [('pred', ('user', 'const', rng.choice([0, 1])))])
+        elif r < 0.5:
+            i = rng.randint(0, len(p))
+            alts = [has_for(rng, d) if rng.random() < 0.8 else ('user', 'const', rng.choice([0, 1])) for _ in range(rng.choice([1, 2, 3]))]
+            pr = rng.choice([('any', alts), ('all', alts), ('not', alts[0]), alts[0]])
+            p = qcase.fix_path(p[:i] + [('pred', pr)] + p[i:])
         out.append(Q({'doc': d, 'cmds': [('iter', 'doc', p, False, True), ('drain', 0, 400, 2)]}))
     return out
 
